@@ -162,8 +162,9 @@ def xml_to_tupletree_sax(xml_string, meaning, conn_id=None):
 
     try:
         xml.sax.parseString(xml_string, handler, None)
-    except LookupError as exc:
-        # Raised by the expat parser for an unknown encoding in the XML
+    except (LookupError, ValueError) as exc:
+        # Raised by the expat parser for an unknown encoding (LookupError)
+        # or a multi-byte encoding such as "cp932" (ValueError) in the XML
         # declaration.
         raise XMLParseError(
             _format("XML parsing error encountered in {0}: {1}",
